@@ -60,6 +60,7 @@ class Intervals:
         self.instates = {}
         self.assert_results = {}  # bb -> True (always holds) / False (may fail) / 'dead'
         self.agg_values = []      # (bb, stmt idx, adt, {field: interval})
+        self.call_args = {}       # bb -> intervals of the call arguments
 
     # ---------------- helpers
     def lty(self, l):
@@ -564,6 +565,8 @@ class Intervals:
                 v = self.operand(st, t['cond'])
                 exp = 1 if t['expected'] else 0
                 self.assert_results[bb] = (v is not None and v[0] not in ('ovf', 'tup') and v[0] == v[1] == exp)
+            elif t['k'] == 'call':
+                self.call_args[bb] = [self.operand(st, a) for a in t['args']]
         return self
 
     def join_states(self, a, b):
@@ -810,6 +813,18 @@ def _obligations(body, ia=None):
             if info is None:
                 continue
             fn = info['fn']
+            msh = re.search(r'<impl ([ui](?:\d+|size))>::(wrapping|overflowing|unchecked)_sh[lr]$', fn)
+            if msh:
+                # the shift amount is silently reduced modulo the bit width: an amount >= width is (almost) never meant
+                bits = BITS.get(msh.group(1), 64)
+                iv = (ia.call_args.get(bb) or [None, None])[1] if ia is not None and len(t['args']) > 1 else None
+                dis = iv is not None and iv[0] not in ('ovf', 'tup') and 0 <= iv[0] and iv[1] < bits
+                if ia is not None and bb not in ia.instates:
+                    dis = True
+                out.append({'kind': 'shift-amount', 'ops': '%s(%s)<%d' % (fn.rsplit('::', 1)[-1], ','.join(
+                    canon_expr(body, a, names) for a in t['args'][:2]), bits), 'bb': bb, 'discharged': dis,
+                    'where': body.loc(bb), 'detail': '%s: shift amount in %s, must be < %d' % (fn, iv, bits)})
+                continue
             for rx, kind in _MP:
                 if rx.search(fn):
                     args = ','.join(canon_expr(body, a, names) for a in t['args'][:2])
